@@ -96,13 +96,14 @@ def base_type(ty):
     return re.sub(r'\bconst\b|\*|\bvolatile\b', ' ', ty).strip()
 
 
+GHOST_TYPES = r'(?:Index|DT_|IT_|int|bool|double|float|unsigned|size_t|u?int(?:8|16|32|64)_t)'
+
+
 def ghost_decls(prelude):
     """Global ghost declarations in the prelude:  `Index gk;`  `const DT_ *S;`  `DT_ y0gk;`"""
     out = []
-    for m in re.finditer(r'^(?:static\s+)?((?:const\s+)?\w+(?:\s+const)?\s*\**)\s*(\w+(?:\s*,\s*\**\s*\w+)*)\s*;', prelude, flags=re.M):
+    for m in re.finditer(r'^((?:const\s+)?' + GHOST_TYPES + r'(?:\s+const)?\s*\**)\s*(\w+(?:\s*,\s*\**\s*\w+)*)\s*;', prelude, flags=re.M):
         ty = m.group(1).strip()
-        if ty in ('return', 'typedef') or ty.startswith('typedef'):
-            continue
         for nm in m.group(2).split(','):
             nm = nm.strip()
             ptr = '*' in ty or nm.startswith('*')
@@ -519,10 +520,10 @@ def bounded_and_native(sp, unit, cfgname, wd, base):
         open(cfile, 'w').write(csrc)
         cfg = sp.configs[cfgname]
         inc = '-I%s -I%s' % (os.path.join(HERE, 'shim'), os.path.join(VERIF, 'contracts', 'lib'))
-        solver = cfg.get('bounded_solver', 'sat' if 'uint8_t' in cfg.get('defs', '') else cfg.get('solver', 'sat'))
+        solver = cfg.get('bounded_solver', cfg.get('solver', 'sat'))
         cmd = 'cbmc %s %s %s --function bharness --nondet-static --unwind %d --bounds-check --pointer-check --div-by-zero-check --trace --json-ui -DVERIF_BOUNDED=1 %s' % (
             inc, cfg.get('defs', ''), cfile, bound + 2, E.SOLVERS.get(solver, ''))
-        rc, out, err, dt = E.sh(cmd, 600)
+        rc, out, err, dt = E.sh(cmd, int(cfg.get('bounded_timeout', '240')))
         extra['bounded_cmd'] = cmd
         extra['bounded_s'] = round(dt, 1)
         try:
